@@ -293,7 +293,8 @@ def rules(ctx):
                         if isinstance(x, ast.BinOp) and isinstance(x.op, ast.Mult):
                             fac, body = x.left, x.right
                             fpos = (const_num(fac) or 0) > 0 or any((const_num(y) or 0) > 0 for s2, y in assignments_to(fn.node, src(fac)) if isinstance(y, ast.AST))
-                            if fpos and isinstance(body, ast.Call) and is_name(body.func, red) and 'abs(' in src(body):
+                            if fpos and isinstance(body, ast.Call) and is_name(body.func, red) and \
+                                    ('abs(' in src(body) or 'abs(' in src(expand_names(fn.node, body))):
                                 ok = True
         ctx.inst('R15.4', fn, '%s = -E_%s / log(%s)' % (nm, red, prob), ok,
                  "temperature is -E/log(p) with E = positive factor * %s of |coefficients| >= 0, and 0 for p = 0" % red if ok else
